@@ -5,6 +5,7 @@ verus! {
 //@nopub
 //@include ioerr.rs
 //@include error.rs
+//@include le.rs
 //@include dev.rs
 //@include page_w_body.rs
 //@include page_r_body.rs
